@@ -153,6 +153,15 @@ def diag_versions(rnd, root):
         out.append((p, "import pytest\n\n" + body))
         if rnd.random() < 0.3:
             out.append((p, "import pytest\n\n" + body))     # identical text re-sent
+    if rnd.random() < 0.4:
+        # a conftest whose OWN fixtures depend on fixtures it only imports: the scope mismatch and the
+        # cycle run through the imported definitions
+        dg = root + "/dg"
+        imp = rnd.choice(["from .dg_mod import *\n", "from .dg_mod import narrow_imp, loop_b\n"])
+        out.append((dg + "/dg_mod.py", "import pytest\n\n@pytest.fixture\ndef narrow_imp():\n    return 1\n\n@pytest.fixture\ndef loop_b(loop_a):\n    return loop_a\n"))
+        out.append((dg + "/conftest.py", "import pytest\n" + imp + "\n@pytest.fixture(scope=\"session\")\ndef wide_c(narrow_imp):\n    return narrow_imp\n\n"
+                    "@pytest.fixture\ndef loop_a(loop_b):\n    return loop_b\n"))
+        out.append((dg + "/conftest.py", "import pytest\n" + imp + "\n@pytest.fixture\ndef wide_c(narrow_imp):\n    return narrow_imp\n"))
     return out
 
 
